@@ -110,9 +110,15 @@ func Register[T any](el *EventLoop, callback EventHandler[T], opts ...HandlerOpt
 		el.handlers[t][i] = h
 	}
 
+	unregistered := false
 	return func() {
 		el.mut.Lock()
 		defer el.mut.Unlock()
+		// the slot may have been reused by a later Register call; only clear it once
+		if unregistered {
+			return
+		}
+		unregistered = true
 		el.handlers[t][i].callback = nil
 	}
 }
